@@ -215,7 +215,12 @@ enum GNode {
 }
 
 const VALUES: &[(&str, &str)] = &[("1", "1"), ("2", "2"), ("a&amp;b", "a&b"), ("&lt;", "<"), ("'", "'"), ("&quot;", "\""), ("é", "é"), ("a b", "a b"), ("&#10;", "\n"), ("&#9;", "\t"), ("", "")];
-const URIS: &[(&str, &str)] = &[("u", "u"), ("v", "v"), ("w", "w"), ("", ""), ("u1", "u1"), ("u2", "u2"), ("a", "a"), ("b", "b"), (" u", " u"), ("u ", "u "), ("http://www.w3.org/XML/1998/namespace", "http://www.w3.org/XML/1998/namespace"), ("a&amp;b", "a&b")];
+const URIS: &[(&str, &str)] = &[("u", "u"), ("v", "v"), ("w", "w"), ("", ""), ("u1", "u1"), ("u2", "u2"), ("a", "a"), ("b", "b"), (" u", " u"), ("u ", "u "), ("http://www.w3.org/XML/1998/namespace", "http://www.w3.org/XML/1998/namespace"), ("a&amp;b", "a&b"),
+    // near misses of the two reserved names: namespace names are opaque strings, so a different case, a missing or extra
+    // slash, or white space around one is an ordinary URI; and names made of white space only
+    ("HTTP://WWW.W3.ORG/2000/xmlns/", "HTTP://WWW.W3.ORG/2000/xmlns/"), ("http://www.w3.org/2000/XMLNS/", "http://www.w3.org/2000/XMLNS/"), ("http://www.w3.org/2000/xmlns", "http://www.w3.org/2000/xmlns"), ("http://www.w3.org/2000/xmlns/ ", "http://www.w3.org/2000/xmlns/ "),
+    ("http://www.w3.org/XML/1998/NAMESPACE", "http://www.w3.org/XML/1998/NAMESPACE"), ("http://www.w3.org/xml/1998/namespace", "http://www.w3.org/xml/1998/namespace"), ("http://www.w3.org/XML/1998/namespace/", "http://www.w3.org/XML/1998/namespace/"),
+    (" ", " "), ("&#x20;&#x20;", "  "), ("\u{a0}", "\u{a0}"), ("&#9;", "\t"), ("U", "U"), ("V", "V")];
 
 fn gen_elem(rng: &mut Rng, depth: usize, budget: &mut usize) -> GNode {
     *budget = budget.saturating_sub(1);
